@@ -58,15 +58,24 @@ TRICKY_TEXT = ["a\u0085b", "\u0085", "a\u2028b", "a\u2029b", "\ufeffa", "a\tb", 
                "1.5", "+1", ".inf", ".nan", "true", "2020-01-01", "1:30", "<<", "=", "&a", "*a", "!t", "%p", "@a", "`b", "{a}",
                "[a]", "a,b", "? x", "| x", "> x", "-", "---", "...", "a  b", " ", "a\rb", "a\r\nb", "a\x7fb", "a\x1bb", "a\x00b",
                "\x80", "\x9f", "\U0001F600", "\ufffd", "\ud7ff\ue000", "a \nb", "a\n b", "\t", "a\t", "\ta",
-               ("w " * 60).strip(), "x" * 200, "\u00e9" * 90,
-               # long free text as release notes have it: lines beyond any folding width that start with a blank or a
-               # tab, indented bullets, paragraphs, double and trailing blanks, indicators in the middle
-               "Release notes:\n - " + "fixed the thing " * 8 + "\n - " + "and another one " * 7,
-               " " + "leading blank then many words " * 5,
-               "word " * 20 + "\n  indented " + "more words " * 12 + "\nlast line",
-               "ab  cd " * 20, "trailing blanks " * 8 + "  ", "para one " * 12 + "\n\n" + "para two " * 12 + "\n",
-               "\tTabbed " + "line goes on " * 10, "key: value " * 12 + "# not a comment " * 5,
-               "x" * 79 + " " + "y" * 79, "a " * 39 + "b", "a " * 40 + "b", " \n " + "w " * 50]
+               ("w " * 60).strip(), "x" * 200, "\u00e9" * 90]
+def _w(word, n):
+    return " ".join([word] * n)
+
+
+LONG_TEXT = [  # long free text as release notes have it: lines beyond any folding width that start with a blank or a
+    # tab, indented bullets, paragraphs, double and trailing blanks, indicators in the middle - with and without blanks
+    # at line ends (a YAML emitter may choose another scalar style because of those)
+    "Release notes:\n - " + _w("fixed the thing", 8) + "\n - " + _w("and another one", 7),
+    "Notes\n  * " + _w("the cache partition is erased before the candidate is stored", 2) + "\nKnown issues: none",
+    " " + _w("note: leading blank then many words", 5),
+    _w("word", 20) + "\n  indented " + _w("more words", 12) + "\nlast line",
+    "intro\n\tTabbed " + _w("line goes on", 10),
+    "Release notes:\n - " + "fixed the thing " * 8 + "\n - " + "and another one " * 7,
+    "ab  cd " * 20, "trailing blanks " * 8 + "  ", _w("para one", 12) + "\n\n" + _w("para two", 12) + "\n",
+    _w("key: value", 12) + _w(" # not a comment", 5),
+    "x" * 79 + " " + "y" * 79, "a " * 39 + "b", "a " * 40 + "b", " \n " + "w " * 50,
+    _w("first line is long enough to be folded by an emitter that folds at eighty columns", 2) + "\n more-indented " + _w("tail", 20)]
 
 
 class World:
@@ -105,7 +114,7 @@ class DescGen:
 
     def text(self):
         if "tricky_text" in self.f and self.s.chance(0.35):
-            return self.s.choice(TRICKY_TEXT)
+            return self.s.choice(LONG_TEXT if self.s.chance(0.3) else TRICKY_TEXT)
         if "boundary" in self.f and self.s.chance(0.2):
             n = self.s.choice([0, 1, 23, 24, 255, 256])
             return ("x" * n)
